@@ -25,3 +25,4 @@ let run inp obs : string option * string option =
     let spec = if want = got then None else Some (Printf.sprintf "sequence: implementation gave [%s], the parser gives [%s]" got want) in
     (spec, Model17.seq inp obs)
   | _ -> (Some "unparsable C17 case", None)
+let () = Evalreg.register "C17" run
